@@ -205,8 +205,9 @@ _QS = [{'cassette': c, 'filter': f, 'q': q} for c in _CASS for f in ('none',) fo
       [{'cassette': c, 'filter': f, 'cats': _FIXCATS, 'q': 'a'} for c in _CASS for f in ('default-skip-incomplete', 'flag-true')] + \
       [{'cassette': 'mem', 'filter': f, 'cats': _FIXCATS, 'q': 'a'} for f in ('flag-any-of', 'flag-gt')] + \
       [{'cassette': c, 'filter': 'none', 'random': True, 'q': 'a'} for c in ('mem', 's3')]
-_TS = _QS + [dict({'cassette': c, 'filter': f, 'q': 'a'}, **{'b.N': 3, 'b.NMIN': 3}) for c in ('mem', 'file') for f in ('none', 'default-skip-incomplete')] + \
-      [{'cassette': c, 'filter': f, 'cats': _FIXCATS, 'q': 'a', 'random': True} for c in _CASS for f in ('default-skip-incomplete', 'flag-true')]
+# thorough: the quick shards with limits up to 2 plus random listing for the filter shards (three saved recordings did
+# not finish within the time budget on any cassette and are stated as not explored)
+_TS = _QS + [{'cassette': c, 'filter': f, 'cats': _FIXCATS, 'q': 'a', 'random': True} for c in _CASS for f in ('default-skip-incomplete', 'flag-true')]
 _W = {'cassette': 'file', 'filter': 'flag-true', 'cats': _FIXCATS, 'q': 'a'}
 CONDITIONS = [
     {'fn': 'lookup', 'nontrivial': 'some-match-some-not',
